@@ -5,7 +5,7 @@ from fractions import Fraction
 import core
 import gen
 
-PROOF_MODULES = ["UnytProofs.C02"]
+PROOF_MODULES = ["UnytProofs.C02", "UnytProofs.C02Num", "UnytProofs.C02Tree"]
 
 
 def snippet(body):
@@ -17,6 +17,326 @@ def frac(s):
     return Fraction(s)
 
 
+# ---------------------------------------------------------------------------------------------
+# numeric literals of unit strings (coefficients and numeric exponents): every spelling Python's
+# tokenizer accepts for the same number must give the same unit
+
+
+def spell_decimal(rng, N, k):
+    """A random spelling of the number N * 10**-k (N > 0): digits with or without a decimal point, with or
+    without an exponent part, either exponent marker, any sign, optional digit separators.
+    Returns (text, tags) — the value is known from (N, k), never computed from the text."""
+    x = rng.choice([-4, -3, -2, -1, 1, 2, 3, 4]) if rng.random() < 0.7 else 0   # the written exponent
+    f = k + x                                                                  # fraction digits of the mantissa
+    digs = str(N)
+    if f <= 0:
+        ip, fp, point = digs + "0" * (-f), "", rng.random() < 0.3
+    else:
+        digs = digs.rjust(f, "0")
+        ip, fp, point = digs[:-f], digs[-f:], True
+        if ip == "" and rng.random() < 0.6:
+            ip = "0"
+    if point and rng.random() < 0.2:
+        fp += "0"
+    if rng.random() < 0.12 and len(ip) >= 2:
+        j = rng.randint(1, len(ip) - 1)
+        ip = ip[:j] + "_" + ip[j:]
+    text = ip + ("." + fp if point else "")
+    tags = ["point" if point else "nopoint"]
+    if x != 0 or rng.random() < 0.25:
+        marker = rng.choice("eE")
+        sign = "-" if x < 0 else rng.choice(["", "+"])
+        ed = str(abs(x))
+        if rng.random() < 0.15:
+            ed = "0" + ed
+        text += marker + sign + ed
+        tags += ["marker-" + ("upper" if marker == "E" else "lower"), "exp" + (sign or "unsigned")]
+    else:
+        tags.append("noexp")
+    return text, tags
+
+
+def spell_radix(rng, n):
+    kind = rng.choice("xob")
+    body = format(n, kind)
+    if kind == "x" and rng.random() < 0.5:
+        body = body.upper()
+    pre = "0" + (kind if rng.random() < 0.5 else kind.upper())
+    return pre + ("_" if rng.random() < 0.1 else "") + body, ["radix-" + kind]
+
+
+def numeric_literals(chk, tier, drv):
+    import sympy
+    from unyt import Unit, unyt_quantity
+    from unyt._parsing import parse_unyt_expr
+    from unyt._unit_lookup_table import default_unit_symbol_lut as LUT, unit_prefixes as PRE
+
+    rng = chk.rng
+    nlit = 500 if tier == "quick" else 8000
+    zero_off = [k for k in LUT if LUT[k][2] == 0 and LUT[k][0] > 0 and k.isidentifier()]
+    prefixable = [k for k in zero_off if LUT[k][4]]
+    fixed_units = ["m", "km", "g/cm**3", "sqrt(J)", "kg*m**2/s**2", "s**-1"]
+    lit_lines, lit_expect, unit_lines, unit_expect = [], [], [], []
+    length_dim = Unit("m").dimensions
+
+    def pick_unit():
+        r = rng.random()
+        if r < 0.4:
+            return rng.choice(fixed_units)
+        if r < 0.7:
+            return rng.choice(list(PRE)) + rng.choice(prefixable)
+        return rng.choice(zero_off)
+
+    def judge(key, s, want_scale, want_dim, dim_py, what):
+        """direct oracle on Unit(s): scale and dimension implied by the constituents (`dim_py`: Python
+        expression of the implied dimension, for the replay)"""
+        try:
+            u = Unit(s)
+        except Exception as e:  # noqa: BLE001
+            chk.fail(key + "-raise", f"valid expression {s!r} ({what}) raised {core.exc_name(e)}", {"python": snippet(f"Unit({s!r})\n")})
+            return None
+        chk.case(("numlit-unit", s), {"numeric-literal": s} if len(chk.samples) < 12 else None)
+        if not (math.isclose(u.base_value, want_scale, rel_tol=1e-11) and u.dimensions == want_dim):
+            chk.fail(key, f"Unit({s!r}) ({what}): scale {u.base_value!r} dimension {u.dimensions} but the constituents imply {want_scale!r}, {want_dim}",
+                     {"python": snippet(f"u = Unit({s!r})\nassert math.isclose(u.base_value, {want_scale!r}, rel_tol=1e-11), (u.base_value, {want_scale!r})\n"
+                                         f"assert u.dimensions == {dim_py}, u.dimensions\n")})
+        if "\t" not in s:
+            unit_lines.append(f"c02.unitstr\t{s}")
+            unit_expect.append((s, u))
+        return u
+
+    for i in range(nlit):
+        if rng.random() < 0.12:
+            n = rng.choice([1, 2, 3, 7, 10, 30, 255, 1000, rng.randint(1, 5000)])
+            lit, tags = spell_radix(rng, n)
+            val = Fraction(n)
+        else:
+            N = rng.choice([1, 2, 5, 15, 25, 125, rng.randint(1, 999), rng.randint(1, 99999)])
+            k = rng.choice([-3, -2, -1, 0, 0, 1, 1, 2, 3, 4, 6])
+            lit, tags = spell_decimal(rng, N, k)
+            val = Fraction(N) / Fraction(10) ** k
+        cls = "+".join(tags)
+        chk.count("numlit:" + cls)
+        # (a) the literal alone: the parser's number is exactly the spelled value
+        chk.case(("numlit", lit))
+        try:
+            got = parse_unyt_expr(lit)
+            gotq = Fraction(int(got.p), int(got.q)) if isinstance(got, sympy.Rational) else None
+        except Exception as e:  # noqa: BLE001
+            got, gotq = core.exc_name(e), None
+        # property level: the number read is the number spelled (to double precision; that it is EXACTLY the
+        # spelled rational is the model's claim, checked by the correspondence below)
+        if gotq is None or not math.isclose(float(gotq), float(val), rel_tol=1e-14):
+            chk.fail("numlit-value|" + cls, f"the numeric literal {lit!r} of a unit string is read as {got!r}, it spells {val}",
+                     {"python": snippet(f"from unyt._parsing import parse_unyt_expr\ngot = parse_unyt_expr({lit!r})\n"
+                                         f"assert math.isclose(float(got), float(Fraction({val.numerator}, {val.denominator})), rel_tol=1e-14), got\n")})
+        lit_lines.append(f"c02.numlit\t{lit}")
+        lit_expect.append((lit, val, gotq, "." in lit or (("e" in lit or "E" in lit) and not lit.startswith(("0x", "0X")))))
+        # (b) as a coefficient: scale(c*u) = c*scale(u), dim(c*u) = dim(u)
+        un = pick_unit()
+        try:
+            base = Unit(un)
+        except Exception:  # noqa: BLE001
+            continue
+        c = float(val)
+        form = rng.randrange(6)
+        if form == 0:
+            s, want = f"{lit}*{un}", c * base.base_value
+        elif form == 1:
+            s, want = f"({un})*{lit}", c * base.base_value
+        elif form == 2:
+            s, want = f"({un})/{lit}", base.base_value / c
+        elif form == 3:
+            s, want = f"({lit})*({un})", c * base.base_value
+        elif form == 4:
+            s, want = f"-{lit}*{un}", -c * base.base_value
+        else:
+            s, want = f"{lit} * {un}", c * base.base_value
+        if math.isfinite(want) and 1e-250 < abs(want) < 1e250:
+            chk.count("numlit-coeff")
+            judge("coeff-scale|" + cls, s, want, base.dimensions, f"Unit({un!r}).dimensions", f"coefficient {lit} on {un}")
+        # (c) conversion to a unit that carries a spelled coefficient
+        if base.dimensions == length_dim and rng.random() < 0.5:
+            x = rng.uniform(0.5, 20.0)
+            chk.count("numlit-to")
+            tgt = f"{lit}*{un}"
+            wantv = x * 1000.0 / (c * base.base_value)
+            try:
+                gotv = float(unyt_quantity(x, "km").to(tgt).d)
+            except Exception as e:  # noqa: BLE001
+                gotv = core.exc_name(e)
+            if not (isinstance(gotv, float) and math.isclose(gotv, wantv, rel_tol=1e-11)):
+                chk.fail("coeff-to-ratio|" + cls, f"({x!r} km).to({tgt!r}) gives {gotv!r}, x*scale(u1)/scale(u2) is {wantv!r}",
+                         {"python": snippet(f"got = float(unyt_quantity({x!r}, 'km').to({tgt!r}).d)\nassert math.isclose(got, {wantv!r}, rel_tol=1e-11), got\n")})
+    # (d) numeric exponents spelled as literals
+    nexp = 120 if tier == "quick" else 2000
+    for _ in range(nexp):
+        N, k = rng.choice([(5, 1), (15, 1), (25, 1), (1, 0), (2, 0), (3, 0), (25, 2), (75, 2)])
+        lit, tags = spell_decimal(rng, N, k)
+        e = Fraction(N) / Fraction(10) ** k
+        un = rng.choice(list(PRE)) + rng.choice(prefixable) if rng.random() < 0.5 else rng.choice(zero_off)
+        try:
+            base = Unit(un)
+        except Exception:  # noqa: BLE001
+            continue
+        neg = rng.random() < 0.3
+        s = f"{un}**{'-' if neg else ''}{lit}"
+        ee = -e if neg else e
+        try:
+            want = base.base_value ** float(ee)
+        except OverflowError:
+            continue
+        if not (math.isfinite(want) and 1e-250 < abs(want) < 1e250):
+            continue
+        chk.count("numlit-exponent:" + "+".join(tags))
+        judge("numexp-scale|" + "+".join(tags), s, want, base.dimensions ** sympy.Rational(ee.numerator, ee.denominator),
+              f"Unit({un!r}).dimensions**sympy.Rational({ee.numerator}, {ee.denominator})", f"exponent {lit} on {un}")
+
+    # ---- model correspondence: the value model of NumLitC02 (and C20's tokenizer model) on every literal,
+    # the string path (parse, then table evaluation) on every unit string
+    try:
+        rep = drv.ask(lit_lines)
+    except Exception as e:  # noqa: BLE001
+        rep = []
+        chk.disagree("driver", repr(e))
+    for r, (lit, val, gotq, is_float) in zip(rep, lit_expect):
+        chk.count("model:numlit")
+        mv = Fraction(r[2]) if r[0] == "ok" and r[2] != "none" else None
+        if mv != val:
+            chk.disagree("c02.numlit", f"{lit}: model value {r[2] if len(r) > 2 else r}, the generator spelled {val}")
+        if mv != gotq:
+            chk.disagree("c02.numlit", f"{lit}: model value {r[2] if len(r) > 2 else r} implementation {gotq}")
+        if r[0] == "ok" and (r[1] == "float") != is_float:
+            chk.disagree("c02.numlit", f"{lit}: model class {r[1]}, sympy's auto_number test says float={is_float}")
+        if r[0] == "ok" and len(r) > 4 and (r[4] == "float") != is_float:
+            chk.disagree("c02.numlit", f"{lit}: the class test regenerated from the live source says {r[4]}, sympy's auto_number test says float={is_float}")
+        if r[0] == "ok" and r[3] != r[2]:
+            chk.disagree("c02.numlit", f"{lit}: value model {r[2]} and tokenizer model (Parse.lexNumber) {r[3]} differ")
+    try:
+        rep = drv.ask(unit_lines)
+    except Exception as e:  # noqa: BLE001
+        rep = []
+        chk.disagree("driver", repr(e))
+    for r, (s, u) in zip(rep, unit_expect):
+        chk.count("model:unitstr")
+        if r[0] != "ok":
+            chk.disagree("c02.unitstr", f"{s}: model {r} implementation scale {u.base_value}")
+            continue
+        co = u.expr.as_coeff_Mul()[0]
+        ok = (core.close(core.b2f(r[1]), u.base_value, 1e-11) and core.close(core.b2f(r[2]), u.base_offset) and r[3] == gen.dim_vec(u.dimensions)
+              and (not co.is_Rational or Fraction(r[6]) == Fraction(int(co.p), int(co.q))))
+        if not ok:
+            chk.disagree("c02.unitstr", f"{s}: model ({core.b2f(r[1])}, {r[3]}, coeff {r[6]}) implementation ({u.base_value}, {gen.dim_vec(u.dimensions)}, coeff {co})")
+
+
+# ---------------------------------------------------------------------------------------------
+# nested expressions as trees (numbers, symbols, products, rational powers; quotient = power -1, sqrt = power 1/2)
+
+
+def nested_trees(chk, tier, drv):
+    import sympy
+    from unyt import Unit
+    from unyt._unit_lookup_table import default_unit_symbol_lut as LUT, unit_prefixes as PRE, inv_name_alternatives as INV
+
+    rng = chk.rng
+    bases = [k for k in LUT if LUT[k][2] == 0 and LUT[k][0] > 0 and k.isidentifier() and INV.get(k, k) == k]
+    prefixable = [k for k in bases if LUT[k][4]]
+    pre_keys = list(PRE)
+
+    def leaf_sym():
+        if rng.random() < 0.4:
+            p, b = rng.choice(pre_keys), rng.choice(prefixable)
+            name = p + b
+            if INV.get(name, name) != name or name in LUT:
+                return leaf_sym()
+            return ("S " + name, name, True, PRE[p][0] * LUT[b][0], LUT[b][1])
+        b = rng.choice(bases)
+        return ("S " + b, b, True, LUT[b][0], LUT[b][1])
+
+    def leaf_num():
+        if rng.random() < 0.4:
+            pq = rng.choice([(3, 2), (1, 4), (2, 3), (7, 5), (1, 3)])
+            return (f"N {pq[0]}/{pq[1]}", f"({pq[0]}/{pq[1]})", True, pq[0] / pq[1], sympy.Integer(1))
+        N, k = rng.choice([2, 3, 4, 5, 9, 15, 25, 125]), rng.choice([0, 0, 1, 2, -1])
+        lit, _tags = spell_decimal(rng, N, k)
+        v = Fraction(N) / Fraction(10) ** k
+        return (f"N {v.numerator}/{v.denominator}" if v.denominator != 1 else f"N {v.numerator}", lit, True, float(v), sympy.Integer(1))
+
+    def tree(depth, top=False):
+        """(wire, text, is_atom, scale, dim)"""
+        r = rng.random() if not top else 0.25 + 0.75 * rng.random()
+        if depth == 0 or r < 0.25:
+            return leaf_sym()
+        if r < 0.65:
+            a = tree(depth - 1) if rng.random() < 0.75 else leaf_num()
+            b = tree(depth - 1)
+            if rng.random() < 0.3:      # a quotient: a * b**-1
+                ta = a[1] if a[2] else f"({a[1]})"
+                tb = b[1] if b[2] else f"({b[1]})"
+                return (f"M {a[0]} P -1 {b[0]}", f"{ta}/{tb}", False, a[3] / b[3], a[4] / b[4])
+            ta = a[1] if (a[2] or rng.random() < 0.3 and "/" not in a[1]) else f"({a[1]})"
+            tb = b[1] if b[2] else f"({b[1]})"
+            return (f"M {a[0]} {b[0]}", f"{ta}*{tb}" if rng.random() < 0.8 else f"{ta} * {tb}", False, a[3] * b[3], a[4] * b[4])
+        a = tree(depth - 1)
+        e = rng.choice(gen.EXPONENTS)
+        es = sympy.Rational(e.numerator, e.denominator)
+        if e == Fraction(1, 2) and rng.random() < 0.6:
+            text = f"sqrt({a[1]})"
+        else:
+            ta = a[1] if (a[2] and "**" not in a[1]) else f"({a[1]})"
+            if e.denominator == 1:
+                text = f"{ta}**{e.numerator}" if e > 0 else f"{ta}**({e.numerator})"
+            elif e.denominator == 2 and rng.random() < 0.4:
+                lit, _t = spell_decimal(rng, abs(e.numerator) * 5, 1)
+                text = f"{ta}**{'-' if e < 0 else ''}{lit}"
+            else:
+                text = f"{ta}**({e.numerator}/{e.denominator})"
+        return (f"P {e.numerator}/{e.denominator} {a[0]}" if e.denominator != 1 else f"P {e.numerator} {a[0]}", text, False, a[3] ** float(e), a[4] ** es)
+
+    ntree = 400 if tier == "quick" else 8000
+    lines, expect = [], []
+    for _ in range(ntree):
+        try:
+            w, text, _atom, scale, dim = tree(rng.randint(1, 3), top=True)
+        except (OverflowError, ZeroDivisionError):
+            chk.count("tree-range-skipped")
+            continue
+        if not (math.isfinite(scale) and 1e-200 < abs(scale) < 1e200):
+            chk.count("tree-range-skipped")
+            continue
+        chk.count("tree:nodes-" + str(min(12, len([t for t in w.split(" ") if t in ("N", "S", "M", "P")]))))
+        try:
+            u = Unit(text)
+        except Exception as e:  # noqa: BLE001
+            chk.fail("tree-raise", f"valid nested expression {text!r} raised {core.exc_name(e)}", {"python": snippet(f"Unit({text!r})\n")})
+            continue
+        chk.case(("tree", text), {"nested": text} if len(chk.samples) < 16 else None)
+        if not (math.isclose(u.base_value, scale, rel_tol=1e-10) and u.dimensions == dim):
+            chk.fail("tree-scale", f"Unit({text!r}): scale {u.base_value!r} dimension {u.dimensions}, the constituents imply {scale!r}, {dim}",
+                     {"python": snippet(f"u = Unit({text!r})\nassert math.isclose(u.base_value, {scale!r}, rel_tol=1e-10), (u.base_value, {scale!r})\n")})
+        lines.append("c02.tree\t" + w)
+        expect.append((text, u))
+    try:
+        rep = drv.ask(lines)
+    except Exception as e:  # noqa: BLE001
+        rep = []
+        chk.disagree("driver", repr(e))
+    for r, (text, u) in zip(rep, expect):
+        chk.count("model:tree")
+        if r[0] != "ok" or len(r) < 8 or r[6] == "none":
+            chk.disagree("c02.tree", f"{text}: model {r} implementation scale {u.base_value}")
+            continue
+        dv = gen.dim_vec(u.dimensions)
+        ok = (core.close(core.b2f(r[1]), u.base_value, 1e-10) and r[3] == dv          # Unit(build tree)
+              and core.close(core.b2f(r[6]), u.base_value, 1e-10) and r[7] == dv)      # sem tree
+        try:
+            ok = ok and r[5] == gen.expr_wire(u.expr)[1]
+        except ValueError:
+            pass
+        if not ok:
+            chk.disagree("c02.tree", f"{text}: model build ({core.b2f(r[1])}, {r[3]}, {r[5]}) sem ({core.b2f(r[6])}, {r[7]}) implementation ({u.base_value}, {dv}, {u.expr})")
+
+
 def run(tier, seed):
     import sympy
     import unyt
@@ -25,7 +345,7 @@ def run(tier, seed):
     import unyt.dimensions as D
 
     chk = core.Check("C02", tier, seed)
-    chk.proof = core.prove("C02", PROOF_MODULES, tier=tier)
+    chk.proof = core.prove("C02", PROOF_MODULES, extra_targets=("unytmodel", "drv_c02"), tier=tier)
     rng = chk.rng
     model = core.Model()
     ex = gen.extract()
@@ -296,6 +616,13 @@ def run(tier, seed):
         elif rep_ != ["ok", str(core.f2b(ent[0])), str(core.f2b(ent[2])), gen.dim_vec(ent[1]), "1" if ent[4] else "0"]:
             chk.disagree("lookup", f"{name}: model {rep_} implementation table entry ({ent[0]}, {ent[2]}, prefixable={ent[4]})")
 
+    # ------------------------------------------------------------------ numeric literals (coefficients, exponents)
+    try:
+        numeric_literals(chk, tier, core.Model("drv_c02"))
+        nested_trees(chk, tier, core.Model("drv_c02"))
+    except RuntimeError as e:  # driver not built
+        chk.disagree("driver", repr(e))
+
     # ------------------------------------------------------------------ model correspondence
     try:
         replies = model.ask(lines)
@@ -315,5 +642,8 @@ def run(tier, seed):
             chk.disagree(op, f"{s}: model {rep_[1:5]} implementation ({u.base_value}, {u.base_offset}, {gen.dim_vec(u.dimensions)})")
     rule = ("all table rows and prefixes against the hand-written reference; names from inv_name_alternatives (sampled in quick, all in thorough) against "
             "prefix*base computed from the live table; generated compounds (1-5 factors, exponent set incl. rationals, coefficients, sqrt(), parentheses, "
-            "prefixes) against the product of their constituents; commensurable .to() pairs against the scale ratio; distinct = distinct string / pair")
+            "prefixes) against the product of their constituents; commensurable .to() pairs against the scale ratio; numeric literals generated from a "
+            "structure (point position, exponent part, marker case, sign, separators, radix) alone, as coefficient / divisor / exponent / conversion target, "
+            "against the spelled value; nested trees (products, quotients, rational powers, sqrt, coefficients at any depth) rendered to strings against "
+            "the constituents; distinct = distinct string / pair")
     return chk.finish(rule)
